@@ -110,16 +110,39 @@ func C12(r *simkit.Run) {
 	}
 	// The partial state is produced by a fault: statement k of the victim fails.
 	k := t.Draw("fail-at", n)
-	drv.FailAlways[victim.Stmts[k]] = true
+	// Or by a bookkeeping fault: the write after statement k-1 is persisted but reports an error
+	// (acknowledgement lost); the run stops there and the revision is partial without error text.
+	byWrite := k >= 1 && k < n && t.Chance("partial-by-write-fault", 1, 3)
+	if byWrite {
+		preWrites := 0
+		if pre {
+			preWrites = len(files[0].Stmts) + 2
+		}
+		revs.WriteFault[preWrites+1+k] = WriteAckLost
+	} else {
+		drv.FailAlways[victim.Stmts[k]] = true
+	}
 	err = ex.ExecuteN(ctx, 0)
 	r.Step()
-	r.Fired("stmt-persistent")
-	r.Logf("partial apply: fail at stmt %d of %d -> %s store=[%s]", k, n, errClass(err), storeDigest(revs))
-	r.Sample("%d-statement file, statement %d fails -> %s; history [%s]", n, k, errClass(err), storeDigest(revs))
 	rev, ok := revs.Store[victim.Version]
-	if !ok || rev.Applied != k || errClass(err) != "stmt-error" {
-		r.Fail(prop, "setup", "partial-state-not-produced", "expected a partial revision %d/%d, got %+v err=%v", k, n, rev, err)
-		return
+	if byWrite {
+		r.Fired("bookkeeping-write-ack-lost")
+		r.Logf("partial apply: write after stmt %d of %d persisted, ack lost -> %s store=[%s]", k-1, n, errClass(err), storeDigest(revs))
+		r.Sample("%d-statement file, the bookkeeping write after statement %d is persisted but reports an error -> %s; history [%s]", n, k-1, errClass(err), storeDigest(revs))
+		if !ok || rev.Applied != k || rev.Error != "" || err == nil {
+			r.Fail(prop, "setup", "partial-state-not-produced", "expected a partial revision %d/%d without error text, got %+v err=%v", k, n, rev, err)
+			return
+		}
+		revs.WriteFault = map[int]int{}
+		r.Probe("partial-revision-without-error-text")
+	} else {
+		r.Fired("stmt-persistent")
+		r.Logf("partial apply: fail at stmt %d of %d -> %s store=[%s]", k, n, errClass(err), storeDigest(revs))
+		r.Sample("%d-statement file, statement %d fails -> %s; history [%s]", n, k, errClass(err), storeDigest(revs))
+		if !ok || rev.Applied != k || errClass(err) != "stmt-error" {
+			r.Fail(prop, "setup", "partial-state-not-produced", "expected a partial revision %d/%d, got %+v err=%v", k, n, rev, err)
+			return
+		}
 	}
 	if k > 0 {
 		r.Probe("partial-with-applied-statements")
